@@ -515,8 +515,19 @@ def file_tag_ignores_trailing_blanks(ctx):
     fn = find_function(t, "_contains_exclude_from_llm_tag")
     if fn is None:
         raise AnalysisError("_contains_exclude_from_llm_tag not found", anchor=P2 + "::_contains_exclude_from_llm_tag")
-    pats = [a.value.value for a in ast.walk(fn) if isinstance(a, ast.Assign) and isinstance(a.value, ast.Constant) and isinstance(a.value.value, str)] + \
-           [c.args[0].value for c in ast.walk(fn) if isinstance(c, ast.Call) and src(c.func).startswith("re.") and c.args and isinstance(c.args[0], ast.Constant) and isinstance(c.args[0].value, str)]
+    from ..source import regex_call, module_const
+    pats = []
+    for c in ast.walk(fn):
+        rc = regex_call(c, t) if isinstance(c, ast.Call) else None
+        if rc is not None:
+            pats.append(rc[1])
+        elif isinstance(c, ast.Call) and src(c.func).startswith("re.") and c.args and isinstance(c.args[0], ast.Name):
+            # the pattern is a local or module-level name bound to a string constant
+            loc = [a for a in ast.walk(fn) if isinstance(a, ast.Assign) and isinstance(a.targets[0], ast.Name) and a.targets[0].id == c.args[0].id
+                   and isinstance(a.value, ast.Constant) and isinstance(a.value.value, str)]
+            v = loc[0].value if loc else module_const(t, c.args[0].id)
+            if isinstance(v, ast.Constant) and isinstance(v.value, str):
+                pats.append(v.value)
     ctx.floor("C13.layout.file-tag", P2, "pattern of the exclude-from-llm tag", len(pats), 1)
     for pat in pats[:1]:
         try:
